@@ -265,15 +265,19 @@ class FaultInjector:
 
 
 def hygiene(store):
-    """C08: locked lists empty; the store's conditions are not held."""
+    """C08: locked lists empty; the store's locks are not held (found generically: list attributes named *locked*,
+    lock attributes; the known attribute names are only a fall-back)."""
     probs = []
     mode = "mp" if getattr(store, "use_multiprocessing", False) else "th"
-    locked = {k: v for k, v in S.locked_lists(store, mode).items() if v}
+    lists = S.locked_lists_generic(store, "_" + mode) or S.locked_lists_generic(store) or S.locked_lists(store, mode)
+    locked = {k: v for k, v in lists.items() if v}
     if locked:
         probs.append(("leaked-lock", {"lists": locked}))
-    for cattr, lattr, _l in S.SYNC_ATTRS[mode]:
-        lock = getattr(store, lattr)
-        got = lock.acquire(False)
+    for lattr, lock in (S.store_locks(store, "_" + mode) or S.store_locks(store)).items():
+        try:
+            got = lock.acquire(False)
+        except Exception:  # noqa
+            continue
         if got:
             lock.release()
         else:
@@ -306,7 +310,8 @@ def followup(store, case, pids):
     t.start()
     if not done.wait(20):
         mode = "mp" if getattr(store, "use_multiprocessing", False) else "th"
-        locked = {k: v for k, v in S.locked_lists(store, mode).items() if v}
+        lists = S.locked_lists_generic(store, "_" + mode) or S.locked_lists_generic(store)
+        locked = {k: v for k, v in lists.items() if v}
         if locked:
             probs.append(("follow-up-blocked", {"locked_lists": locked}))
         else:
